@@ -35,13 +35,14 @@ func init() {
 		Rule: "one case = one generated program of at most 14 WriteMulti/Values/Snapshot..ClearSnapshot(true|false)/DeleteRange/Size/Keys operations by 3 clients on one tsm1.Cache with a per-run size limit, under one seeded interleaving " +
 			"(configuration linearizability: one key and one type per WriteMulti; configuration batches: 1-3 keys per WriteMulti, value types mixed); " +
 			"non-trivial = at least 4 operations, one accepted write and one context switch; distinct = distinct hash of (operations, context-switch sequence with sites)",
-		Probes: []string{"write_rejected_limit", "write_type_conflict", "snapshot_swap", "snapshot_retry", "snapshot_in_progress", "delete", "delete_with_retained_snapshot", "write_waited_for_delete", "lin_checked_keys"},
+		Probes: []string{"write_rejected_limit", "write_type_conflict", "snapshot_swap", "snapshot_retry", "snapshot_in_progress", "delete", "delete_with_retained_snapshot", "write_waited_for_delete", "write_overlaps_delete", "write_during_partial_delete", "lin_checked_keys"},
 		Real:   []string{"tsm1.Cache with ring/partition/entry stores (WriteMulti, Snapshot, Deduplicate, ClearSnapshot, DeleteRange, Values, Size, Keys) — instrumented from the working tree"},
 		Stub: []string{"engine lock around Snapshot / WriteMulti, Engine.snapshotDeleteMu, Store epoch guard for deletes: harness locks taken through simrt", "prometheus gauges: real, not instrumented",
 			"clock: synctest bubble", "goroutine scheduler: baton over the instrumented lock/atomic sites", "linearizability checker: porcupine v1.3.0, 20 s timeout"},
 		Assumptions: []string{
 			"callers behave like the engine: Snapshot is exclusive with WriteMulti (engine lock), DeleteRange never runs between Snapshot and ClearSnapshot (snapshotDeleteMu), ClearSnapshot is only called by the goroutine whose Snapshot succeeded, a delete waits for the writes in flight and a later write waits for the delete iff it has a point inside the delete's keys and time range (Store epoch guard)",
-			"accounted size of a key = key length + value sizes; the oracle accepts every size between the deduplicated content and the sum of all values written to the entry and not covered by a delete (the code counts overwritten values until the entry is deduplicated by a delete)",
+			"accounted size of a key = key length + value sizes; at quiescence the oracle accepts every size between the deduplicated content and the sum of all values the entries hold (the code counts overwritten values until a delete deduplicates the entry); Size() calls concurrent with other operations are only observed",
+			"violation classes name the anomaly: read-truncated, write-lost-in-delete-race, size-drift-after-dedup, size-race-delete-vs-write are recognised by weaker models / slack counters; everything unexplained falls into not-linearizable, size-mismatch, snapshot-content, final-content",
 			"size-limit rule: a rejection needs max possible size during the call + own size > limit, an acceptance needs min possible size + own size <= limit (check-then-add is racy by design)",
 			"type conflicts are judged against the hot entry only (a key that exists only in the snapshot accepts any type, as the code does); outcomes of a conflicting batch are attributed to keys only when no other operation mutates those keys meanwhile, otherwise the run is counted inconclusive_contended_type_conflict",
 			"multi-key DeleteRange / WriteMulti are not required to be atomic across keys (histories are partitioned per key)",
